@@ -52,6 +52,13 @@ static void END(void) {
 
 #include "xdrv_gen.inc"
 
+/* hidden-state poisoning: the library must not READ errno (or any other thread state the application may have left behind).
+   Before every operation the driver leaves a different value there, as an application that has just overflowed a strtod, taken
+   the log of a negative number or failed an allocation would; the answers must not depend on it.  (Seeded changes C02-9, C06-9,
+   C07-9, C12-9, C15-10, C16-7: "errno == ERANGE" tests without clearing errno first.) */
+#include <errno.h>
+static void xv_poison_errno(void) { static unsigned k; static const int v[4] = {ERANGE, EDOM, ENOMEM, 0}; errno = v[k++ & 3]; }
+
 static void pr_cs(Crystal_Struct *c) {
   pr_s(c->name); pr_d(c->a); pr_d(c->b); pr_d(c->c); pr_d(c->alpha); pr_d(c->beta); pr_d(c->gamma); pr_d(c->volume); pr_i(c->n_atom);
   for (int i = 0; i < c->n_atom; i++) { pr_i(c->atom[i].Zatom); pr_d(c->atom[i].fraction); pr_d(c->atom[i].x); pr_d(c->atom[i].y); pr_d(c->atom[i].z); }
@@ -154,6 +161,7 @@ int main(void) {
   }
   printf("ready\n"); fflush(stdout);
   while (fgets(line, sizeof line, stdin)) {
+    xv_poison_errno();
     int nt = 0;
     for (char *p = strtok(line, " \n"); p && nt < 64; p = strtok(NULL, " \n")) tok[nt++] = p;
     if (nt == 0) continue;
